@@ -208,7 +208,7 @@ def slot_arr(v,st): return z3.Select(st.heap[(v.d.id,'val')],v.k)
 
 class SlotOps:
   """in-place operators on d[k] (set-valued dict entries)."""
-  METHODS={'__ior__','__isub__','__iand__','add','discard','__contains__','update','append'}
+  METHODS={'__ior__','__isub__','__iand__','add','discard','__contains__','update','append','extend'}
   def handles(s,o,st): return False
   @staticmethod
   def apply(ex,slot,m,args,st):
@@ -222,6 +222,10 @@ class SlotOps:
       st.vcs.append(('setlist-nodup',f"append@{ex.cur_line}",list(st.pc),z3.Not(z3.Select(cur,x)),st))
       new=z3.Store(cur,x,True)
     elif m=='discard': new=z3.Store(cur,to_obj(args[0],st),False)
+    elif m=='extend':
+      a2=setval(args[0],st)[0]
+      st.vcs.append(('setlist-nodup',f"extend@{ex.cur_line}",list(st.pc),z3.SetIntersect(cur,a2)==EMPTY,st))
+      new=z3.SetUnion(cur,a2)
     else: raise Unsupported(f"operation {m} on a dict entry")
     st2=st.fork(); st2.heap[(d.id,'val')]=z3.Store(val,slot.k,new)
     return st2,(slot if m.startswith('__i') else NONE)
